@@ -770,6 +770,104 @@ theorem pyPow_hom (ctx : Ctx ℝ) (l r e : Val ℝ) (a b : ℝ) (h : pyPow l r =
           plainOps_node2 .pow _ _ (Or.inr (Or.inr (Or.inr (Or.inr rfl)))) (hpl' hpl) hpr⟩
     · cases h
 
+/-! ### arithmetic with a `MassAction` (UnaryWrapper): coefficient level -/
+
+theorem uwArg_plain (c : Val ℝ) : uwArg (.node .massAction false [c] none) = .ok c := rfl
+
+theorem isMA_ma (na : Bool) (args : List (Val ℝ)) (uks : Option (List String)) :
+    (Val.node Kind.massAction na args uks).isMassAction = true := rfl
+
+theorem isOne_node_false (k : Kind) (na : Bool) (args : List (Val ℝ)) (uks : Option (List String)) :
+    isOne (Val.node k na args uks) = false := rfl
+
+/-- `ma * o`, `o * ma`, `ma / o`, `o / ma` for `ma = MassAction([c])`: the result is `MassAction([c ∘ o])` -/
+theorem massAction_ops (ctx : Ctx ℝ) (c o e : Val ℝ) (k b : ℝ) (reac : List (String × ℤ)) (conc : String → ℝ)
+    (hr : ctx.rxn = .some reac) (hc : ∀ p ∈ reac, ctx.vars p.1 = some (conc p.1) ∧ 0 < conc p.1)
+    (hk : eval ctx c = .ok k) (hb : eval ctx o = .ok b) (hmo : o.isMassAction = false) :
+    let ma : Val ℝ := .node .massAction false [c] none
+    let P := (reac.map fun p => conc p.1 ^ p.2).prod
+    (pyMul ma o = .ok e → eval ctx e = .ok (k * b * P))
+    ∧ (pyMul o ma = .ok e → eval ctx e = .ok (k * b * P))
+    ∧ (pyDivOp ma o = .ok e → b ≠ 0 → eval ctx e = .ok (k / b * P))
+    ∧ (pyDivOp o ma = .ok e → k ≠ 0 → eval ctx e = .ok (b / k * P)) := by
+  intro ma P
+  have hmul : ∀ e, exprMul ma o = .ok e → eval ctx e = .ok (k * b * P) := by
+    intro e h
+    unfold exprMul at h
+    simp only [ma, isMA_ma, if_true, uwArg_plain, ok_bind] at h
+    cases hcv : conv o with
+    | error err => rw [hcv] at h; cases h
+    | ok o' =>
+      rw [hcv] at h
+      obtain ⟨hev, _, _, _⟩ := conv_spec ctx o o' hcv
+      simp only [ok_bind, pure_eq_ok, Except.ok.injEq] at h
+      subst h
+      exact eval_massAction_node ctx _ (k * b) reac conc hr (eval_mul_node ctx c o' k b hk (by rw [hev, hb])) hc
+  have hrdiv : ∀ e, exprRDiv ma o = .ok e → k ≠ 0 → eval ctx e = .ok (b / k * P) := by
+    intro e h hk0
+    unfold exprRDiv at h
+    simp only [ma, isMA_ma, if_true, uwArg_plain, ok_bind] at h
+    cases hcv : conv o with
+    | error err => rw [hcv] at h; cases h
+    | ok o' =>
+      rw [hcv] at h
+      obtain ⟨hev, _, _, _⟩ := conv_spec ctx o o' hcv
+      simp only [ok_bind, pure_eq_ok, Except.ok.injEq] at h
+      subst h
+      have hd := eval_div_node ctx o' c b k (by rw [hev, hb]) hk
+      rw [pyDiv_real hk0] at hd
+      exact eval_massAction_node ctx _ (b / k) reac conc hr hd hc
+  refine ⟨?_, ?_, ?_, ?_⟩
+  · intro h
+    unfold pyMul at h
+    simp only [ma, Val.isNode, if_true] at h
+    exact hmul e h
+  · intro h
+    unfold pyMul at h
+    split at h
+    · unfold exprMul at h
+      simp only [hmo, Bool.false_eq_true, if_false, ma, isOne_node_false, isMA_ma, if_true, uwArg_plain,
+        ok_bind] at h
+      cases hcv : conv o with
+      | error err => rw [hcv] at h; cases h
+      | ok o' =>
+        rw [hcv] at h
+        obtain ⟨hev, _, _, _⟩ := conv_spec ctx o o' hcv
+        simp only [ok_bind, pure_eq_ok, Except.ok.injEq] at h
+        subst h
+        exact eval_massAction_node ctx _ (k * b) reac conc hr (eval_mul_node ctx c o' k b hk (by rw [hev, hb])) hc
+    · simp only [ma, Val.isNode, if_true] at h
+      exact hmul e h
+  · intro h hb0
+    unfold pyDivOp at h
+    simp only [ma, Val.isNode, if_true] at h
+    unfold exprDiv at h
+    by_cases h1 : isOne o = true
+    · simp only [h1, if_true, pure_eq_ok, Except.ok.injEq] at h
+      subst h
+      rw [isOne_value ctx o b h1 hb, div_one]
+      have := eval_massAction_node ctx c k reac conc hr hk hc
+      exact this
+    · simp only [h1, Bool.false_eq_true, if_false, isMA_ma, if_true, uwArg_plain, ok_bind] at h
+      cases hcv : conv o with
+      | error err => rw [hcv] at h; cases h
+      | ok o' =>
+        rw [hcv] at h
+        obtain ⟨hev, _, _, _⟩ := conv_spec ctx o o' hcv
+        simp only [ok_bind, pure_eq_ok, Except.ok.injEq] at h
+        subst h
+        have hd := eval_div_node ctx c o' k b hk (by rw [hev, hb])
+        rw [pyDiv_real hb0] at hd
+        exact eval_massAction_node ctx _ (k / b) reac conc hr hd hc
+  · intro h hk0
+    unfold pyDivOp at h
+    split at h
+    · unfold exprDiv at h
+      simp only [ma, isOne_node_false, Bool.false_eq_true, if_false, hmo, isMA_ma, if_true] at h
+      exact hrdiv e h hk0
+    · simp only [ma, Val.isNode, if_true] at h
+      exact hrdiv e h hk0
+
 /-! ### concrete witnesses (exact rationals) and backend homomorphisms -/
 
 /-- `variables = {'A': 2, 'T': 3}`, `reaction = 2 A -> …` -/
